@@ -88,10 +88,34 @@ def _digest(obj):
 # --------------------------------------------------------------------------------------------------
 # C18
 
-def icase_obs(a, b):
+ROUTES = ["direct", "evolve", "copy", "deepcopy", "pickle", "evolve2"]
+
+
+def mk_icase(text, route, other):
+    """an ICaseString holding `text`, obtained in one of the ways client code obtains one: the constructor, or derived
+    from another instance (`attr.evolve`, copies, a pickle round trip).  Whatever the route, it is *the* case-insensitive
+    string of `text` (seeded change C18-10: a cached canonical form survived attr.evolve)."""
+    import copy
+    import pickle
+
+    import attr
     from str_utils import ICaseString
 
-    A, B = ICaseString(a), ICaseString(b)
+    if route == "direct":
+        return ICaseString(text)
+    if route == "evolve":
+        return attr.evolve(ICaseString(other), raw_str=text)
+    if route == "evolve2":
+        return attr.evolve(attr.evolve(ICaseString(text), raw_str=other), raw_str=text)
+    if route == "copy":
+        return copy.copy(ICaseString(text))
+    if route == "deepcopy":
+        return copy.deepcopy(ICaseString(text))
+    return pickle.loads(pickle.dumps(ICaseString(text)))
+
+
+def icase_obs(a, b, routes=("direct", "direct")):
+    A, B = mk_icase(a, routes[0], b + "x"), mk_icase(b, routes[1], a + "Y")
     ops = [lambda: A == B, lambda: B == A, lambda: A != B, lambda: A < B, lambda: B < A, lambda: A <= B, lambda: B <= A,
            lambda: A > B, lambda: A >= B, lambda: b in A, lambda: a in B, lambda: hash(A) == hash(B)]
     bits = []
@@ -110,18 +134,31 @@ class IcaseRaised(Exception):
 def eval_icase(inp):
     items = inp["items"]
     impl = []
+    rsel = inp.get("routes")      # None: constructor only; k: deterministic mix of construction routes
+
+    def routes(n, j):
+        if rsel is None:
+            return ("direct", "direct")
+        x = rsel + 7 * n + 3 * j
+        return (ROUTES[x % len(ROUTES)], ROUTES[(x // len(ROUTES)) % len(ROUTES)])
+
     try:
-        for it in items:
+        for n, it in enumerate(items):
             if len(it) == 2:
-                impl.append([icase_obs(it[0], it[1])])
+                impl.append([icase_obs(it[0], it[1], routes(n, 0))])
             else:
                 a, b, c = it
-                impl.append([icase_obs(a, b), icase_obs(b, c), icase_obs(a, c)])
+                impl.append([icase_obs(a, b, routes(n, 0)), icase_obs(b, c, routes(n, 1)), icase_obs(a, c, routes(n, 2))])
     except IcaseRaised as e:
         props = _blank_props()
         props["C18"] = {"app": True, "nontrivial": True, "k": False, "o": "C18.total: " + str(e)}
         return {"props": props, "tags": ["raised"], "impl": str(e), "model": None, "small": {"kind": "icase", "items": [it]}}
-    ans = core.driver().ask({"op": "icase", "items": items, "impl": impl, "brief": True})
+    req = {"op": "icase", "items": items, "impl": impl, "brief": True}
+    if inp.get("unicode"):
+        # outside the ASCII model: Python's own str.lower supplies the folded texts, the Lean spec (checkC18Folded,
+        # theorem checkC18Folded_iff) is evaluated on them; the ASCII model is not consulted for these items
+        req["lowers"] = [[x.lower() for x in it] for it in items]
+    ans = core.driver().ask(req)
     props = _blank_props()
     props["C18"] = {"app": True, "nontrivial": any(len(set(it)) > 1 for it in items), "k": bool(ans["k"]["C18"]), "o": ans["o"]["C18"]}
     fails = ans.get("fail", [])
@@ -129,7 +166,15 @@ def eval_icase(inp):
     if fails:
         idx = [f["i"] for f in fails][:5]
         small = {"kind": "icase", "items": [items[i] for i in idx]}
+        if rsel is not None:       # routes depend on the position in the batch: keep the batch prefix needed
+            small = {"kind": "icase", "items": items[: max(idx) + 1], "routes": rsel}
+        if inp.get("unicode"):
+            small["unicode"] = True
     tags = []
+    if rsel is not None:
+        tags.append("derived-instances")
+    if inp.get("unicode"):
+        tags.append("non-ascii")
     if any(len(it) == 2 for it in items):
         tags.append("has-pairs")
     if any(len(it) == 3 for it in items):
@@ -160,6 +205,38 @@ def rand_str18(rng, base=None):
     n = rng.choice([0, 1, 2, 3, 4, 6, 9, 14])
     alpha = rng.choice(["abAB", "abcABC12 _", EDGE_CHARS, "".join(chr(c) for c in range(32, 127))])
     return "".join(rng.choice(alpha) for _ in range(n))
+
+
+# non-ASCII letters whose case mapping is not one-to-one / not length-preserving / not an involution
+UNI_CHARS = ["\u0130", "\u0131", "i\u0307", "I", "i", "\u00df", "\u1e9e", "ss", "SS", "\u212a", "k", "K", "\u00c5", "\u212b", "\u00e5",
+             "\u03a3", "\u03c3", "\u03c2", "\u00e9", "\u00c9", "e\u0301", "\u01c5", "\u01c4", "\u01c6", "\ufb01", "fi", "\u0390", "a", "B", " "]
+
+
+def rand_uni(rng, base=None):
+    if base is not None and rng.random() < 0.65:
+        r = rng.random()
+        if r < 0.3:
+            return base.swapcase()
+        if r < 0.45:
+            return base.lower()
+        if r < 0.6:
+            return base.upper()
+        if r < 0.8:
+            i, j = sorted((rng.randint(0, len(base)), rng.randint(0, len(base))))
+            return base[i:j]
+        return base + rng.choice(UNI_CHARS)
+    return "".join(rng.choice(UNI_CHARS) for _ in range(rng.choice([0, 1, 1, 2, 3, 5])))
+
+
+def gen_icase_unicode(rng, count):
+    items = []
+    for _ in range(count):
+        a = rand_uni(rng)
+        b = rand_uni(rng, a)
+        if rng.random() < 0.3:
+            a, b = b, a
+        items.append([a, b] if rng.random() < 0.6 else [a, b, rand_uni(rng, rng.choice([a, b]))])
+    return items
 
 
 def gen_icase_random(rng, count):
@@ -195,15 +272,77 @@ def mk_bag(rec, vt):
     return BagValDict({k: list(vs) for k, vs in rec})
 
 
+def mk_bag_hist(rec, vt, rng):
+    """the record with content `rec`, reached by a *history*: built with other content, its lists taken by reference
+    (`b[k]`, which also creates the list of an absent unit), observed (len / repr / ==), and then brought to `rec` through
+    the retained references (slice deletion, append, clear, extend) — the way the simulator itself fills a cycle record.
+    Whatever the history, it is the record of its current content (seeded change C17-10: a cached canonical form was
+    invalidated by `__getitem__` only)."""
+    if vt == "hi":
+        from sim_services.sim_defs import InstrState, StallState
+
+        conv = lambda v: InstrState(v[0], StallState(v[1]))   # noqa: E731
+    else:
+        conv = lambda v: v   # noqa: E731
+    start = []
+    for k, vs in rec:
+        r = rng.random()
+        if r < 0.3:
+            continue                                   # unit absent at first
+        if r < 0.6:
+            start.append([k, vs[: rng.randint(0, len(vs))]])
+        else:
+            start.append([k, list(vs) + ([rng.choice(vs)] if vs else [])])
+    extra = rng.random() < 0.4 and all(k != "zz_tmp" for k, _ in rec)
+    if extra and rec and rec[0][1]:
+        start.append(["zz_tmp", [rec[0][1][0]]])       # a unit that will be emptied again (empty = absent)
+    else:
+        extra = False
+    b = mk_bag(start, vt)
+    refs = {k: b[k] for k, _ in rec}
+    if extra:
+        refs["zz_tmp"] = b["zz_tmp"]
+    fresh = mk_bag(start, vt)
+    _ = (len(b), repr(b), b == fresh, fresh == b)      # the record is used before it changes
+    for k, vs in rec:
+        lst, target = refs[k], [conv(v) for v in vs]
+        mode = rng.randrange(3)
+        if mode == 0:
+            n = 0
+            while n < len(lst) and n < len(target) and lst[n] == target[n]:
+                n += 1
+            del lst[n:]
+            for v in target[n:]:
+                lst.append(v)
+        elif mode == 1:
+            lst.clear()
+            lst.extend(target)
+        else:
+            lst[:] = target
+        if rng.random() < 0.3:
+            _ = (len(b), repr(b))                      # observed in the middle of the history as well
+    if extra:
+        refs["zz_tmp"].clear()
+    return b
+
+
 def eval_bag(inp):
     vt, recs, pairs = inp["vt"], inp["recs"], inp["pairs"]
+    hist = inp.get("hist")
+    if hist is not None:
+        import random
+
+        hrng = random.Random("bag-hist:%s" % hist)
+        build = lambda r: mk_bag_hist(r, vt, hrng) if hrng.random() < 0.7 else mk_bag(r, vt)   # noqa: E731
+    else:
+        build = lambda r: mk_bag(r, vt)   # noqa: E731
     irecs = []
     for r in recs:
-        b = mk_bag(r, vt)
+        b = build(r)
         irecs.append([len(b), repr(b)])
     ipairs = []
     for i, j in pairs:
-        a, b = mk_bag(recs[i], vt), mk_bag(recs[j], vt)
+        a, b = build(recs[i]), build(recs[j])
         e1 = a == b
         e2 = b == a
         e3 = a == b
@@ -227,7 +366,9 @@ def eval_bag(inp):
         remap = {x: n for n, x in enumerate(used)}
         small = {"kind": "bag", "vt": vt, "recs": [recs[x] for x in used], "pairs": [[remap[a], remap[b]] for a, b in keep]}
     eq_n = sum(1 for p in ipairs if p[0][0] == "1")
-    tags = ["vt:" + vt, "units<=%d" % max([len(r) for r in recs] + [0]),
+    if small is not None and hist is not None:
+        small = {"kind": "bag", "vt": vt, "recs": recs, "pairs": pairs, "hist": hist}   # the history depends on the whole batch
+    tags = (["via-history"] if hist is not None else []) + ["vt:" + vt, "units<=%d" % max([len(r) for r in recs] + [0]),
             "entries<=%d" % max([len(vs) for r in recs for _k, vs in r] + [0])]
     if eq_n:
         tags.append("has-equal-pairs")
@@ -843,8 +984,8 @@ def _corpus():
 def cases(tier: str) -> list:
     th = tier == "thorough"
     fam = {
-        "C18x": 259, "C18r": 2000 if th else 200, "C18t": 43 * 43,
-        "C17x": 196, "C17y": 2744 if th else 0, "C17n": 4000 if th else 400, "C17r": 6000 if th else 600,
+        "C18x": 259, "C18r": 2000 if th else 200, "C18t": 43 * 43, "C18d": 1200 if th else 120, "C18u": 2000 if th else 200,
+        "C17x": 196, "C17y": 2744 if th else 0, "C17n": 4000 if th else 400, "C17r": 6000 if th else 600, "C17h": 4000 if th else 400,
         "C14c": 128 * 7, "C14g": 120000 if th else 12000, "C14w": 40000 if th else 4000,
         "C15i": 100000 if th else 10000, "C15a": 20000 if th else 2000, "C15y": 10000 if th else 1000,
         "C16r": 60000 if th else 6000, "C16b": 20000 if th else 2000,
@@ -875,6 +1016,10 @@ def gen_input(case, tier="quick"):
         return fam, {"kind": "icase", "items": [[a, b, c] for c in s2]}
     if fam == "C18r":
         return fam, {"kind": "icase", "items": gen_icase_random(rng, 120)}
+    if fam == "C18d":      # instances derived from other instances (attr.evolve, copies, pickle)
+        return fam, {"kind": "icase", "items": gen_icase_random(rng, 60), "routes": i}
+    if fam == "C18u":      # non-ASCII text: the property's sentence with Python's own str.lower as the folding
+        return fam, {"kind": "icase", "items": gen_icase_unicode(rng, 80), "unicode": True, "routes": (i if i % 2 else None)}
     if fam in ("C17x", "C17y"):
         fwd, rev = _records17(2 if fam == "C17x" else 3)
         vt = "hi"
@@ -884,9 +1029,9 @@ def gen_input(case, tier="quick"):
             m = {json.dumps(v): k for k, v in enumerate(HI_DOMAIN)}
             recs = [[[k, [m[json.dumps(v)] for v in vs]] for k, vs in r] for r in recs]
         return fam, {"kind": "bag", "vt": vt, "recs": recs, "pairs": [[0, j] for j in range(1, len(recs))]}
-    if fam in ("C17n", "C17r"):
+    if fam in ("C17n", "C17r", "C17h"):
         vt = "hi" if rng.random() < 0.6 else "int"
-        if fam == "C17n":
+        if fam == "C17n" or (fam == "C17h" and i % 2):
             domain = HI_DOMAIN if vt == "hi" else INT_DOMAIN
             units = rng.sample(["a", "b", "c"], rng.randint(1, 3))
             rec = [[u, [rng.choice(domain) for _ in range(rng.randint(0, 3))]] for u in units]
@@ -898,6 +1043,8 @@ def gen_input(case, tier="quick"):
             recs.append(rand_record(rng, vt, 4, 4, domain))
         pairs = [[0, j] for j in range(len(recs))] + [[j, 0] for j in range(1, len(recs), 3)]
         pairs += [[rng.randrange(len(recs)), rng.randrange(len(recs))] for _ in range(10)]
+        if fam == "C17h":       # the same records, reached through histories of in-place changes
+            return fam, {"kind": "bag", "vt": vt, "recs": recs, "pairs": pairs, "hist": i}
         return fam, {"kind": "bag", "vt": vt, "recs": recs, "pairs": pairs}
     if fam == "C14g":
         return fam, {"kind": "parse", "gen": gen_program_gen(rng, th), "file": rng.random() < 0.3}
